@@ -106,7 +106,12 @@ fn gen_pattern(rng: &mut Rng) -> String {
 }
 
 fn gen_name(rng: &mut Rng) -> String {
-    match rng.below(24) {
+    match rng.below(25) {
+        // names with blanks at an edge: they are other names (a plain pattern does not
+        // match them, a result must be the argument itself, byte for byte)
+        24 => rng
+            .pick_str(&["foo-1.0 ", "foo-1.0\t", " foo-1.0", "foo-1.0\n", "foo-2.0 ", "foo -1.0", "foo-1.0\u{a0}", "bar-1.0 "])
+            .to_string(),
         0 => "foo".to_string(),
         1 => "foo-".to_string(),
         2 => "-1.0".to_string(),
